@@ -59,14 +59,14 @@ Fixpoint push_seqs (seq delta : Z) (vs : list bytes) : list (Z * bytes) :=
   match vs with [] => [] | x :: r => (seq, x) :: push_seqs (seq + delta) delta r end.
 
 (* lDelete *)
-Definition ldelete (compact : bool) (l : lcoll) : lcoll * Z :=
+Definition ldelete (lazy : bool) (l : lcoll) : lcoll * Z :=
   match l_meta l with
   | None => (l, 0)
   | Some m =>
       let size := l_size l in
       if size =? 0 then (l, 0)
       else ({| l_meta := None;
-               l_elems := if compact then l_elems l else ldrop_range (lm_ver m) (lm_head m) (lm_tail m) (l_elems l) |}, size)
+               l_elems := if lazy then l_elems l else ldrop_range (lm_ver m) (lm_head m) (lm_tail m) (l_elems l) |}, size)
   end.
 
 Definition lstep (compact : bool) (ts : Z) (key : bytes) (c : lcmd) (l : lcoll) : lcoll * reply :=
@@ -135,7 +135,7 @@ Definition lstep (compact : bool) (ts : Z) (key : bytes) (c : lcmd) (l : lcoll) 
         let start := if start <? 0 then llen + start else start in
         let stop := if stop <? 0 then llen + stop else stop in
         let start := if start <? 0 then 0 else start in            (* clamp first (fix 28dbe2d) *)
-        if (llen <=? start) || (stop <? start) then (fst (ldelete compact l), RNil)
+        if (llen <=? start) || (stop <? start) then (fst (ldelete (lazy_clear compact ts (l_ver l)) l), RNil)
         else
           let stop := if llen <=? stop then llen - 1 else stop in
           (* delete [head, head+start) and (head+stop, head+llen) key by key *)
@@ -148,7 +148,7 @@ Definition lstep (compact : bool) (ts : Z) (key : bytes) (c : lcmd) (l : lcoll) 
           end
   | LCclear =>
       if negb (key_ok key) then (l, RErr)
-      else let '(l', n) := ldelete compact l in (l', RInt (if 0 <? n then 1 else 0))
+      else let '(l', n) := ldelete (lazy_clear compact ts (l_ver l)) l in (l', RInt (if 0 <? n then 1 else 0))
   end.
 
 Definition lquery (key : bytes) (q : lqry) (l : lcoll) : reply :=
